@@ -7,6 +7,7 @@ import (
 	"bytes"
 	"context"
 	"fmt"
+	"strings"
 	"time"
 
 	"github.com/BurntSushi/toml"
@@ -309,7 +310,10 @@ func (e *daemonEngine) runDKGSteps(res *RunResult) {
 		e.rec.Count("dkgstep:"+label, 1)
 		if err != nil {
 			e.rec.Count("probe:dkgsm_rejected_steps", 1)
-			if !before.equal(after) && st.K == "cmd" {
+			// a refused command never touches the completed record; a command refused for what it asks
+			// (not merely reporting that part of its gossip failed) leaves the current record alone too
+			gossipOnly := strings.Contains(err.Error(), "error sending packet")
+			if !bytes.Equal(before.fin, after.fin) || (!before.equal(after) && st.K == "cmd" && !gossipOnly) {
 				e.rec.Violate("C08", "rejected-command-changed-state", st.S, "node %s: %s returned an error (%v) but its DKG records changed", n.addr, label, err)
 			}
 		}
@@ -319,6 +323,9 @@ func (e *daemonEngine) runDKGSteps(res *RunResult) {
 	}
 	if e.pendingLeader != nil {
 		_ = e.cmd(e.pendingLeader, id, &pdkg.DKGCommand{Command: &pdkg.DKGCommand_Abort{Abort: &pdkg.AbortOptions{}}})
+	}
+	if e.keepIO {
+		e.scanSecrets()
 	}
 	res.NonTrivial = true
 }
